@@ -86,6 +86,8 @@ PROPS = {
                 ("m1mix", C(InitMax=1, Budget=3, GetModes=["nb", "bl"], AllowTake=True, AllowPanic=True), True),
                 ("timed", C(InitMax=1, Budget=3, GetModes=["timed", "nb"], AllowFail=False), True),
                 ("m2bl", C(InitMax=2, Budget=3, NPre=1, NPc=1, AsyncPc=[1], AllowTake=True, GetModes=["bl"]), True),
+                # capacity after a shrink that overlaps a creation: nobody may be stranded afterwards
+                ("rsz", C(InitMax=2, Budget=4, ResizeTargets=[1], GetModes=["bl"], AllowCancel=False, AllowFail=False, AllowSuspend=False), True),
                 ("m2", C(InitMax=2, Budget=3, NPre=1, NPc=1, AsyncPc=[1], AllowTake=True, AllowRetain=True), False),
             ],
             "thorough": [
@@ -103,6 +105,8 @@ PROPS = {
             "quick": [
                 ("hooks", C(InitMax=1, Budget=3, NPre=1, AsyncPre=[1], NPost=1, AsyncPost=[1], NPc=1, AsyncPc=[1], AllowPanic=True, AllowFail=False), True),
                 ("m2", C(InitMax=2, Budget=3, NPost=1, AllowPanic=True, GetModes=["bl"]), True),
+                # a get() abandoned inside recycle while another thread sits in retain()'s predicate, holding the slots mutex
+                ("rtc", C(InitMax=2, Budget=4, AllowRetain=True, GetModes=["nb"], AllowFail=False), True),
             ],
             "thorough": [
                 ("hooks", C(InitMax=1, Budget=4, NPre=1, AsyncPre=[1], NPost=1, AsyncPost=[1], NPc=1, AsyncPc=[1], AllowPanic=True), True),
@@ -161,7 +165,13 @@ PROPS = {
         "configs": {
             "quick": [
                 ("fifo", C(Tasks=["t1"], InitMax=3, MaxObjs=4, Budget=6, ThreadLevel=False, AllowRetain=True, AllowSuspend=False, AllowCancel=False, GetModes=["nb"]), True),
-                ("lifo", C(Tasks=["t1"], InitMax=3, MaxObjs=4, Budget=7, ThreadLevel=False, AllowRetain=True, AllowSuspend=False, AllowCancel=False, GetModes=["nb"], Lifo=True), True),
+                ("lifo", C(Tasks=["t1"], InitMax=3, MaxObjs=4, Budget=7, ThreadLevel=False, AllowRetain=True, AllowSuspend=False, AllowCancel=False, GetModes=["nb"], Lifo=True), True,
+                 {"hcfg": {"build_order": 1}}),
+                # the same pool reached through other orders of the builder calls
+                ("lifo_cfg", C(Tasks=["t1"], InitMax=2, MaxObjs=3, Budget=5, ThreadLevel=False, AllowSuspend=False, AllowCancel=False, AllowFail=False, GetModes=["nb"], Lifo=True), True,
+                 {"hcfg": {"build_order": 2}}),
+                ("lifo_cfg2", C(Tasks=["t1"], InitMax=2, MaxObjs=3, Budget=5, ThreadLevel=False, AllowSuspend=False, AllowCancel=False, AllowFail=False, GetModes=["nb"], Lifo=True), True,
+                 {"hcfg": {"build_order": 3}}),
                 ("shrink", C(Tasks=["t1"], InitMax=4, MaxObjs=4, Budget=7, ThreadLevel=False, ResizeTargets=[2, 3], AllowFail=False, AllowSuspend=False, AllowCancel=False, GetModes=["nb"]), True),
                 ("two", C(InitMax=3, MaxObjs=3, Budget=5, ThreadLevel=False, AllowRetain=True, AllowSuspend=False, AllowCancel=False, AllowFail=False, GetModes=["nb"]), True),
             ],
@@ -426,7 +436,8 @@ R_NORT = RC(tasks=2, init_max=2, has_runtime=False, modes=["nb", "bl", "timed"],
 
 for pid, (quick, thorough) in {
     "C01": ([("plain", R_PLAIN, 150, 300)], [("plain", R_PLAIN, 4000, 600), ("hooks", R_HOOKS, 2000, 600)]),
-    "C02": ([("plain", R_PLAIN, 100, 300), ("timed", R_TIMED, 100, 300)], [("plain", R_PLAIN, 4000, 600), ("timed", R_TIMED, 4000, 600)]),
+    "C02": ([("plain", R_PLAIN, 100, 300), ("timed", R_TIMED, 100, 300), ("resize", R_RESIZE, 100, 300)],
+            [("plain", R_PLAIN, 4000, 600), ("timed", R_TIMED, 4000, 600), ("resize", R_RESIZE, 3000, 600)]),
     "C03": ([("timed", R_TIMED, 150, 300)], [("timed", R_TIMED, 4000, 600), ("hooks", R_HOOKS, 2000, 600)]),
     "C04": ([("hooks", R_HOOKS, 150, 300)], [("hooks", R_HOOKS, 4000, 600), ("timed", R_TIMED, 2000, 600)]),
     "C06": ([("close", R_CLOSE, 150, 300)], [("close", R_CLOSE, 5000, 600)]),
@@ -462,6 +473,15 @@ for tier, n in (("quick", 100), ("thorough", 3000)):
     PROPS["C10"]["random"][tier] = list(PROPS["C10"]["random"][tier]) + [("unort", UR_NORT, n, 200, "unmanaged"), ("uclose", UR_CLOSE, n, 300, "unmanaged")]
 
 REFINE = C(Tasks=["t1", "t2"], InitMax=2, MaxObjs=3, Budget=4, NPost=1, AsyncPost=[1], AllowTake=True, AllowPanic=True)
+UREFINE = C(Tasks=["t1", "t2", "t3"], MaxSize=2, NObjs=3, Budget=5, GetModes=["try", "bl", "timed"])
+PROPS["C05"]["extra"] = {"thorough": ["ucounting"], "quick": [], "refine_consts": UREFINE}
+
+ULIVE = {"spec": "FairSpec", "invariants": ["TypeOK"], "actprops": ["Live_C05_get", "Live_C05_add"]}
+PROPS["C05"]["configs"]["quick"].append(
+    ("live", C(MaxSize=1, NObjs=2, Budget=4, GetModes=["bl", "timed"], AllowClose=True, AllowCancel=False), False, ULIVE))
+PROPS["C05"]["configs"]["thorough"].append(
+    ("live", C(Tasks=["t1", "t2", "t3"], MaxSize=2, NObjs=2, Budget=4, GetModes=["bl", "timed"], AllowClose=True, AllowCancel=False), False, ULIVE))
+
 for pid in ("C01", "C02"):
     PROPS[pid]["extra"] = {"thorough": ["counting"], "quick": [], "refine_consts": REFINE}
 
@@ -490,6 +510,6 @@ REQUIRED_ACTIONS = {
     "C13": ["Call", "GExit", "UDrop"],
     "C14": ["StartJob", "Lock", "Release", "Cancel", "DropWrapper"],
     "C15": ["Get", "GetResume", "InteractCancel", "Finish", "Break", "Invalidate"],
-    "C16": ["Get", "Drop", "Prepare", "PrepareJoin", "Clear", "Remove", "Take", "TakeBusy"],
+    "C16": ["Get", "Drop", "Prepare", "PrepareJoin", "TxPrepare", "Clear", "Remove", "Take", "TakeBusy"],
     "C17": ["Get", "Watch", "Take", "Return"],
 }
